@@ -552,8 +552,16 @@ outer:
 		b.snapshotFilename = filepath.Base(newSnapshotFilename)
 	}
 
-	b.knownPcaps = append(b.knownPcaps, newPcapInfos...)
+nextNewPcap:
 	for _, pi := range newPcapInfos {
+		for _, known := range b.knownPcaps {
+			if known == pi {
+				// this pcap was known before (e.g. found in the pcap dir on startup),
+				// adding it again would make later imports replay its packets twice
+				continue nextNewPcap
+			}
+		}
+		b.knownPcaps = append(b.knownPcaps, pi)
 		b.packetCount += pi.PacketCount
 	}
 	b.snapshots = newSnapshots
